@@ -118,3 +118,40 @@ func VerifHarness_MintToken_Deliver() {
 		verifAssert("C22:minted=value", new(big.Int).Sub(after.get("volume."+coin.String()), vol0).Cmp(data.Value) == 0)
 	}
 }
+
+// C07/C05: a multisig wallet (owners 1,2,3; weights 1; threshold 1) edits its
+// owner list to one with more addresses than weights (config "extra" = number
+// of surplus addresses) or to a well-formed one, then a Send signed by the last
+// listed owner is delivered.  The edit with a malformed list must be rejected;
+// whatever was accepted, later transactions of the wallet never panic and obey
+// the weights on record.
+func VerifHarness_Multisig_EditThenSend() {
+	u := verifUniverse()
+	var msig types.Address
+	msig[0], msig[19] = 0xAB, 0xAB
+	u.st.Accounts.CreateMultisig([]uint32{1, 1, 1}, []types.Address{verifAddr(1), verifAddr(2), verifAddr(3)}, 1, msig)
+	u.st.Accounts.SetBalance(msig, 0, verifBigPos("bal.M.0"))
+	u.addrs = append(u.addrs, msig)
+	nonce0 := u.st.Accounts.GetNonce(msig)
+	extra := verifConfig("extra")
+	weights := []uint32{verifU32Range("nw1", 0, 1023), verifU32Range("nw2", 0, 1023)}
+	addrs := []types.Address{verifAddr(1), verifAddr(2)}
+	for i := 0; i < extra; i++ {
+		addrs = append(addrs, verifAddr(4+i))
+	}
+	th := verifU32("newThreshold")
+	tx := verifTx(nonce0+1, verifGasPrice(), 0, TypeEditMultisig, EditMultisigData{Threshold: th, Weights: weights, Addresses: addrs})
+	resp, _, _ := verifDeliverChecked(u, tx, verifSignMulti(tx, msig, []int{1}), msig, nonce0)
+	if resp.Code == 0 {
+		verifAssert("C05:multisig-owner-list-well-formed", len(addrs) == len(weights))
+	}
+	// a transaction signed by the last listed owner of whatever list is on record now
+	last := 2
+	if resp.Code == 0 && extra > 0 {
+		last = 3 + extra
+	}
+	n1 := u.st.Accounts.GetNonce(msig)
+	tx2 := verifTx(n1+1, verifGasPrice(), 0, TypeSend, SendData{Coin: 0, To: u.B, Value: big.NewInt(1)})
+	r2 := u.deliver(verifSignMulti(tx2, msig, []int{last}))
+	verifNote("second", uint64(r2.Code))
+}
